@@ -124,6 +124,9 @@ mut("c30-ok-wake-explicit-loop", "C30", SLP, "    return mju_isZeroByte((const u
     "    for (int k=0; k < num; k++) {\n      if (!(d->qvel[adr+k] == 0)) return 0;\n    }\n    return 1;", None)
 # ---- C34
 NM = "src/engine/engine_name.c"
+UMC = "src/user/user_model.cc"
+mut("c34-repeat-check-skipped-by-size", "C34", UMC, "  if (checkrepeat) { CheckRepeat(type); }", "  if (checkrepeat && list.size() != ids[type].size()) { CheckRepeat(type); }", "rule=R-REPEAT construct=ProcessList_:CheckRepeat")
+mut("c34-ok-repeat-check-negated-flag", "C34", UMC, "  if (checkrepeat) { CheckRepeat(type); }", "  if (!checkrepeat) { return; }\n  CheckRepeat(type);", None)
 mut("c34-wrong-count", "C34", NM, "      *padr = m->name_siteadr;\n      num = m->nsite;", "      *padr = m->name_siteadr;\n      num = m->ncam;", "rule=R-TABLE-NAME")
 mut("c34-swap-order", "C34", "src/user/user_model.cc", "  adr      = namelist(sites_, adr, m->name_siteadr, m->names, map_adr);\n  map_adr += mjLOAD_MULTIPLE * sites_.size();\n\n  adr      = namelist(cameras_, adr, m->name_camadr, m->names, map_adr);\n  map_adr += mjLOAD_MULTIPLE * cameras_.size();",
     "  adr      = namelist(cameras_, adr, m->name_camadr, m->names, map_adr);\n  map_adr += mjLOAD_MULTIPLE * cameras_.size();\n\n  adr      = namelist(sites_, adr, m->name_siteadr, m->names, map_adr);\n  map_adr += mjLOAD_MULTIPLE * sites_.size();", "rule=R-WRITER-ORDER construct=order")
